@@ -358,12 +358,21 @@ func runWorker(chk *Check, tier, spec string) int {
 		out.WriteByte('\n')
 		out.Flush()
 	}
+	// address-space limit: a case that allocates without bound must kill this worker, not the machine
+	limitAddressSpace(12 << 30)
 	// watchdog
 	go func() {
 		last, since := int64(-2), time.Now()
+		var ms runtime.MemStats
 		for {
 			time.Sleep(200 * time.Millisecond)
 			c := cur.Load()
+			runtime.ReadMemStats(&ms)
+			if c >= 0 && ms.HeapAlloc > 3<<30 {
+				// the running case allocates without bound (e.g. a reader loop that never advances)
+				flush("memory", c)
+				os.Exit(4)
+			}
 			if c != last {
 				last, since = c, time.Now()
 				continue
@@ -590,6 +599,10 @@ func (p *Parent) superviseWorker(f *Family, k, n int, total int64, famRec *Rec, 
 			kind = "hang"
 			ci = last.I
 		}
+		if last != nil && last.T == "memory" {
+			kind = "unbounded memory growth (over 3 GiB in one case)"
+			ci = last.I
+		}
 		crashes++
 		mu.Lock()
 		resume := from
@@ -602,6 +615,9 @@ func (p *Parent) superviseWorker(f *Family, k, n int, total int64, famRec *Rec, 
 		sig := kind + ": " + crashSig(tail)
 		if kind == "hang" {
 			sig = "hang"
+		}
+		if strings.HasPrefix(kind, "unbounded memory") {
+			sig = kind
 		}
 		famRec.idx = ci
 		desc := "?"
